@@ -9,6 +9,17 @@
 //! `into_boxed` needs `Send + Sync`; `Cache` (an `Rc`) can therefore not be boxed here, and every
 //! nesting that contains a `Cache` is exercised through statically typed shapes (`dispatch!`),
 //! cache-free subtrees also through `BoxedGain` (shape `D`).
+//!
+//! Contexts of a tree (coverage review C14): besides the root of a plain gain datagram (bare or inside
+//! `WithSegment { None | Some(Immediate) }`) the same trees are
+//! * the elements of a `GainSTM { gains: Vec<G> }` (op `stm`, modelled by `sendStm`): same or different
+//!   trees of one static type, clones of one `Cache` in several elements, failing element in the middle,
+//!   sizes 0/1/1025; every pattern is read back (`drives_at(seg, i)`) and `stm_cycle` with it;
+//! * inside `WithSegment` with `Ext` / `SyncIdx` / `GPIO` / `SysTime` (wrap tokens `<seg><e|s|g|t>`,
+//!   modelled by `sendMode`): `InvalidTransitionMode` once a device is enabled, caches filled anyway;
+//! * the two members of a tuple datagram `(WithSegment{t1,S0,..}, WithSegment{t2,S1,..})` (op `pair`,
+//!   modelled by `sendPair`): both are initialised whatever the other one returns;
+//! * packed with `parallel` as `Sender::send` does (`+p` on the wrap token; invisible to the model).
 use crate::common::*;
 use autd3::gain::{Cache, Custom, Group};
 use autd3::prelude::*;
@@ -22,6 +33,7 @@ use autd3_driver::firmware::{
 use autd3_firmware_emulator::{CPUEmulator, cpu::params::ERR_BIT};
 use std::any::Any;
 use std::collections::{BTreeMap, BTreeSet, HashMap};
+use std::num::NonZeroU16;
 use std::sync::{Arc, Mutex};
 use zerocopy::FromZeros;
 
@@ -361,6 +373,7 @@ fn do_send<D>(
     geometry: &Geometry,
     tx: &mut [TxMessage],
     par: bool,
+    pack_par: bool,
 ) -> Result<(), AUTDDriverError>
 where
     D: Datagram,
@@ -375,7 +388,8 @@ where
         if OperationHandler::is_done(&op) {
             break;
         }
-        OperationHandler::pack(&mut op, geometry, tx, false)?;
+        // `Sender::send` hands the same `parallel` to `pack` (rayon `par_bridge` over the devices)
+        OperationHandler::pack(&mut op, geometry, tx, pack_par)?;
         for (cpu, dev) in cpus.iter_mut().zip(geometry.iter()) {
             if dev.enable {
                 cpu.send(tx);
@@ -388,34 +402,90 @@ where
     Ok(())
 }
 
-fn run_typed<G: Build>(n: &Node, wrap: Wrap, par: bool, env: &mut Env) -> Result<(), AUTDDriverError> {
-    let g = G::build(n, &mut env.cx);
+/// how the trees are sent
+#[derive(Clone, Copy, PartialEq, Debug)]
+struct How {
+    /// as the elements of a `GainSTM` (else: exactly one tree, as a gain datagram)
+    stm: bool,
+    /// `OperationHandler::pack(.., parallel = par)` as `Sender::send` does (else serial)
+    packp: bool,
+    /// exactly two trees as the tuple datagram `(WithSegment{t1, S0, a}, WithSegment{t2, S1, b})`;
+    /// the flags say whether `a` / `b` is `Some(Immediate)` (else `None`)
+    pair: Option<(bool, bool)>,
+}
+const PLAIN: How = How { stm: false, packp: false, pair: None };
+
+/// sampling division of every `GainSTM` of this stream (above the silencer's strict-mode minimum)
+const STM_DIV: u16 = 5000;
+
+fn run_typed<G: Build>(nodes: &[Node], how: How, wrap: Wrap, par: bool, env: &mut Env) -> Result<(), AUTDDriverError> {
+    let pp = how.packp && par;
+    if how.stm {
+        // built in order through the shared pool: the same cache id in two elements is a clone
+        let gains: Vec<G> = nodes.iter().map(|n| G::build(n, &mut env.cx)).collect();
+        let stm = GainSTM {
+            gains,
+            config: SamplingConfig::Division(NonZeroU16::new(STM_DIV).unwrap()),
+            option: GainSTMOption::default(),
+        };
+        return match wrap {
+            None => do_send(&mut env.cpus, stm, &env.geometry, &mut env.tx, par, pp),
+            Some((segment, transition_mode)) => do_send(
+                &mut env.cpus,
+                WithSegment { inner: stm, segment, transition_mode },
+                &env.geometry,
+                &mut env.tx,
+                par,
+                pp,
+            ),
+        };
+    }
+    if let Some((a, b)) = how.pair {
+        assert!(nodes.len() == 2, "harness: a pair is two trees");
+        let g1 = G::build(&nodes[0], &mut env.cx);
+        let g2 = G::build(&nodes[1], &mut env.cx);
+        let tm = |x: bool| if x { Some(TransitionMode::Immediate) } else { None };
+        return do_send(
+            &mut env.cpus,
+            (
+                WithSegment { inner: g1, segment: Segment::S0, transition_mode: tm(a) },
+                WithSegment { inner: g2, segment: Segment::S1, transition_mode: tm(b) },
+            ),
+            &env.geometry,
+            &mut env.tx,
+            par,
+            pp,
+        );
+    }
+    assert!(nodes.len() == 1, "harness: a gain datagram is one tree");
+    let g = G::build(&nodes[0], &mut env.cx);
     match wrap {
-        None => do_send(&mut env.cpus, g, &env.geometry, &mut env.tx, par),
+        None => do_send(&mut env.cpus, g, &env.geometry, &mut env.tx, par, pp),
         Some((segment, transition_mode)) => do_send(
             &mut env.cpus,
             WithSegment { inner: g, segment, transition_mode },
             &env.geometry,
             &mut env.tx,
             par,
+            pp,
         ),
     }
 }
 
 macro_rules! dispatch {
-    ($sk:expr, $n:expr, $wrap:expr, $par:expr, $env:expr; $($t:ty),* $(,)?) => {{
+    ($sk:expr, $n:expr, $how:expr, $wrap:expr, $par:expr, $env:expr; $($t:ty),* $(,)?) => {{
         $( if <$t as Build>::sk() == *$sk {
-            assert!(<$t as Build>::matches($n), "harness: tree does not have the announced shape");
-            return Some(run_typed::<$t>($n, $wrap, $par, $env));
+            assert!($n.iter().all(|n| <$t as Build>::matches(n)), "harness: tree does not have the announced shape");
+            return Some(run_typed::<$t>($n, $how, $wrap, $par, $env));
         } )*
         None
     }};
 }
 
 /// the statically typed shapes; `sk` selects the type (an empty group alone does not determine it)
-fn run_node(sk: &Sk, n: &Node, wrap: Wrap, par: bool, env: &mut Env) -> Option<Result<(), AUTDDriverError>> {
+fn run_node(sk: &Sk, n: &[Node], how: How, wrap: Wrap, par: bool, env: &mut Env) -> Option<Result<(), AUTDDriverError>> {
     type D = BoxedGain;
-    dispatch!(sk, n, wrap, par, env;
+    dispatch!(sk, n, how, wrap, par, env;
         Cus, HGain, EGain, D,
         Cache<Cus>, Cache<HGain>, Cache<EGain>, Cache<D>,
         Cache<Cache<Cus>>, Cache<Cache<Cache<Cus>>>,
@@ -432,6 +502,7 @@ fn run_node(sk: &Sk, n: &Node, wrap: Wrap, par: bool, env: &mut Env) -> Option<R
 
 // ---------------------------------------------------------------------------------- one history
 
+#[derive(Clone)]
 struct CacheInfo {
     first_mask: Option<Vec<bool>>,
     poisoned: bool,
@@ -481,14 +552,27 @@ fn start(out: &mut Out, dims: &[usize]) -> Env {
     }
 }
 
-fn wrap_str(w: Wrap) -> &'static str {
-    match w {
-        None => "-",
-        Some((Segment::S0, None)) => "0",
-        Some((Segment::S1, None)) => "1",
-        Some((Segment::S0, Some(_))) => "0i",
-        Some((Segment::S1, Some(_))) => "1i",
+fn tm_str(t: Option<TransitionMode>) -> &'static str {
+    match t {
+        None => "",
+        Some(TransitionMode::Immediate) => "i",
+        Some(TransitionMode::Ext) => "e",
+        Some(TransitionMode::SyncIdx) => "s",
+        Some(TransitionMode::GPIO(_)) => "g",
+        Some(TransitionMode::SysTime(_)) => "t",
     }
+}
+
+fn wrap_str(w: Wrap) -> String {
+    match w {
+        None => "-".into(),
+        Some((s, t)) => format!("{}{}", s as u8, tm_str(t)),
+    }
+}
+
+/// a transition mode a gain cannot be sent with
+fn bad_mode(w: Wrap) -> bool {
+    matches!(w, Some((_, Some(m))) if m != TransitionMode::Immediate)
 }
 
 fn mask_str(m: &[bool]) -> String {
@@ -503,10 +587,15 @@ enum Expect {
     MustErr,
     /// only: must not panic
     NoPanic,
+    /// everything fine but a transition mode other than `Immediate` and a device to send to: must be
+    /// `Err(InvalidTransitionMode)` (never `Ok`: the mode must not be swallowed)
+    ModeErr,
+    /// a `GainSTM` of fewer than 2 or more than 1024 gains: must be `Err(GainSTMSizeOutOfRange)`
+    SizeErr,
 }
 
-/// one `send`: writes the op line with the implementation's answer, runs the oracle, updates the
-/// cache bookkeeping.  Returns the answer.
+/// one `send` of a gain datagram: writes the op line with the implementation's answer, runs the
+/// oracle, updates the cache bookkeeping.  Returns the answer.
 fn send(out: &mut Out, env: &mut Env, wrap: Wrap, par: bool, mask: &[bool], node: &Node, tag: &str) -> String {
     let sk = Sk::of(node);
     send_sk(out, env, wrap, par, mask, node, &sk, tag)
@@ -524,25 +613,15 @@ fn cache_sks(n: &Node, sk: &Sk, out: &mut BTreeMap<u32, Sk>) {
     }
 }
 
-#[allow(clippy::too_many_arguments)]
-fn send_sk(out: &mut Out, env: &mut Env, wrap: Wrap, par: bool, mask: &[bool], node: &Node, sk: &Sk, tag: &str) -> String {
-    if env.dead {
-        // a panic ended this history (emulators and shared caches are in an unknown state)
-        return "dead".into();
-    }
-    for (dev, &e) in env.geometry.iter_mut().zip(mask) {
-        dev.enable = e;
-    }
-    let op = format!("send {} {} {} {}", wrap_str(wrap), par as u8, mask_str(mask), node.show());
-    env.replay.push(op.clone());
-    // ---- expectation from the bookkeeping (before the send)
+/// what one `init_full` of `node` must do, given what is known about the caches
+fn expect_one(info: &BTreeMap<u32, CacheInfo>, node: &Node, mask: &[bool]) -> Expect {
     let mut caches = vec![];
     node.caches(&mut caches);
     let root_sig = node.show();
     let mut cache_ok = true;
     let mut cache_known = true;
     for (id, inner) in &caches {
-        if let Some(ci) = env.info.get(id) {
+        if let Some(ci) = info.get(id) {
             assert!(ci.inner == *inner, "cache id {id} reused with a different inner gain");
             if ci.poisoned {
                 cache_known = false;
@@ -556,13 +635,109 @@ fn send_sk(out: &mut Out, env: &mut Env, wrap: Wrap, par: bool, mask: &[bool], n
             }
         }
     }
-    let wk = well_keyed(node, mask);
-    let expect = if !cache_known {
+    if !cache_known {
         Expect::NoPanic
-    } else if wk && cache_ok {
+    } else if well_keyed(node, mask) && cache_ok {
         Expect::OkDen
     } else {
         Expect::MustErr
+    }
+}
+
+/// bookkeeping after one `init_full` of `node` (`ok`: it returned `Ok`)
+fn book(info: &mut BTreeMap<u32, CacheInfo>, node: &Node, sk: &Sk, mask: &[bool], ok: bool) {
+    let mut caches = vec![];
+    node.caches(&mut caches);
+    let root_sig = node.show();
+    let mut sks = BTreeMap::new();
+    cache_sks(node, sk, &mut sks);
+    for (id, inner) in caches {
+        let sk = sks[&id].clone();
+        let ci = info.entry(id).or_insert(CacheInfo {
+            first_mask: None,
+            poisoned: false,
+            inner,
+            root_sig: root_sig.clone(),
+            sk,
+        });
+        if ci.first_mask.is_none() {
+            if ok {
+                ci.first_mask = Some(mask.to_vec());
+                ci.root_sig = root_sig.clone();
+            } else {
+                ci.poisoned = true;
+            }
+        }
+    }
+}
+
+#[allow(clippy::too_many_arguments)]
+fn send_sk(out: &mut Out, env: &mut Env, wrap: Wrap, par: bool, mask: &[bool], node: &Node, sk: &Sk, tag: &str) -> String {
+    send_any(out, env, PLAIN, wrap, par, mask, std::slice::from_ref(node), sk, tag)
+}
+
+fn drives_hex(ds: &[Drive]) -> String {
+    hex(&ds.iter().flat_map(|d| [d.phase.0, d.intensity.0]).collect::<Vec<u8>>())
+}
+
+/// one send of `nodes` (one tree as a gain datagram, or any number as the elements of a `GainSTM`)
+#[allow(clippy::too_many_arguments)]
+fn send_any(out: &mut Out, env: &mut Env, how: How, wrap: Wrap, par: bool, mask: &[bool], nodes: &[Node], sk: &Sk, tag: &str) -> String {
+    if env.dead {
+        // a panic ended this history (emulators and shared caches are in an unknown state)
+        return "dead".into();
+    }
+    for (dev, &e) in env.geometry.iter_mut().zip(mask) {
+        dev.enable = e;
+    }
+    let k = nodes.len();
+    let via = if how.packp { "+p" } else { "" };
+    let pair_tm = how.pair.map(|(a, b)| format!("{}{}", if a { 'i' } else { '-' }, if b { 'i' } else { '-' }));
+    let op = if let Some(tm) = &pair_tm {
+        format!("pair {tm}{via} {} {} {};{}", par as u8, mask_str(mask), nodes[0].show(), nodes[1].show())
+    } else if how.stm {
+        let trees = if k == 0 { "-".to_string() } else { nodes.iter().map(|n| n.show()).collect::<Vec<_>>().join(";") };
+        format!("stm {}{via} {} {} {trees}", wrap_str(wrap), par as u8, mask_str(mask))
+    } else {
+        format!("send {}{via} {} {} {}", wrap_str(wrap), par as u8, mask_str(mask), nodes[0].show())
+    };
+    env.replay.push(op.clone());
+    // ---- expectation from the bookkeeping (before the send): the elements are initialised in
+    //      order, each sees the caches the earlier ones filled, the first failure ends it
+    let size_bad = how.stm && !(2..=1024).contains(&k);
+    let mut exps: Vec<Expect> = vec![];
+    if !size_bad {
+        if k == 1 {
+            exps.push(expect_one(&env.info, &nodes[0], mask));
+        } else {
+            let mut sim = env.info.clone();
+            for n in nodes {
+                let e = expect_one(&sim, n, mask);
+                exps.push(e);
+                if e != Expect::OkDen && how.pair.is_none() {
+                    break;
+                }
+                // (a tuple asks both members for their generator before it looks at the results)
+                book(&mut sim, n, sk, mask, e == Expect::OkDen);
+            }
+        }
+    }
+    // the outcome of the whole send is that of the first element not known to succeed — for a tuple
+    // an element whose outcome is open makes the whole outcome open
+    let first_bad = if how.pair.is_some() && exps.contains(&Expect::NoPanic) {
+        exps.iter().position(|e| *e == Expect::NoPanic)
+    } else {
+        exps.iter().position(|e| *e != Expect::OkDen)
+    };
+    let any_enabled = mask.iter().any(|e| *e);
+    let expect = if size_bad {
+        Expect::SizeErr
+    } else {
+        match first_bad {
+            Some(j) => exps[j],
+            None if bad_mode(wrap) && any_enabled && !how.stm => Expect::ModeErr,
+            None => Expect::OkDen,
+        }
     };
     // ---- the real thing
     env.cx.log.lock().unwrap().clear();
@@ -570,10 +745,17 @@ fn send_sk(out: &mut Out, env: &mut Env, wrap: Wrap, par: bool, mask: &[bool], n
         None => Segment::S0,
         Some((s, _)) => s,
     };
-    let res = guarded(|| run_node(sk, node, wrap, par, env));
+    let res = guarded(|| run_node(sk, nodes, how, wrap, par, env));
+    let mut init_ok = false;
     let (answer, kind): (String, &str) = match &res {
         Err(_) => ("panic".into(), "panic"),
-        Ok(None) => panic!("harness: no static type for tree {}", node.show()),
+        Ok(None) => panic!("harness: no static type for tree {}", nodes.first().map(|n| n.show()).unwrap_or_default()),
+        Ok(Some(Err(AUTDDriverError::InvalidTransitionMode))) => {
+            // from `GainOp::pack`, i.e. after `init_full` and `generate` went through
+            init_ok = true;
+            ("err invalid-transition-mode".into(), "err:invalid-transition-mode")
+        }
+        Ok(Some(Err(AUTDDriverError::GainSTMSizeOutOfRange(n)))) => (format!("err stm-size {n}"), "err:stm-size"),
         Ok(Some(Err(e))) => {
             let msg = e.to_string();
             if msg.contains("Unknown group key") {
@@ -594,16 +776,30 @@ fn send_sk(out: &mut Out, env: &mut Env, wrap: Wrap, par: bool, mask: &[bool], n
             }
         }
         Ok(Some(Ok(()))) => {
+            init_ok = true;
             let tm = match wrap {
-                None | Some((_, Some(_))) => "i",
+                None => "i",
                 Some((_, None)) => "-",
+                Some((_, t)) => tm_str(t),
             };
-            let mut s = format!("ok seg={} tm={tm}", target as u8);
+            let mut s = match &pair_tm {
+                Some(tm) => format!("ok tm={tm}"),
+                None => format!("ok seg={} tm={tm}", target as u8),
+            };
+            if how.stm {
+                s.push_str(&format!(" n={k}"));
+            }
             for (i, cpu) in env.cpus.iter().enumerate() {
-                if mask[i] {
-                    let ds = cpu.fpga().drives_at(target, 0);
-                    let bytes: Vec<u8> = ds.iter().flat_map(|d| [d.phase.0, d.intensity.0]).collect();
-                    s.push_str(&format!(" d{i}={}@{}", hex(&bytes), cpu.fpga().req_stm_segment() as u8));
+                if mask[i] && !bad_mode(wrap) {
+                    let pats: Vec<String> = if how.pair.is_some() {
+                        vec![drives_hex(&cpu.fpga().drives_at(Segment::S0, 0)), drives_hex(&cpu.fpga().drives_at(Segment::S1, 0))]
+                    } else if how.stm {
+                        // as many patterns as the device says it holds
+                        (0..cpu.fpga().stm_cycle(target).min(2048)).map(|j| drives_hex(&cpu.fpga().drives_at(target, j))).collect()
+                    } else {
+                        vec![drives_hex(&cpu.fpga().drives_at(target, 0))]
+                    };
+                    s.push_str(&format!(" d{i}={}@{}", pats.join("/"), cpu.fpga().req_stm_segment() as u8));
                 }
             }
             let mut log = env.cx.log.lock().unwrap().clone();
@@ -619,61 +815,144 @@ fn send_sk(out: &mut Out, env: &mut Env, wrap: Wrap, par: bool, mask: &[bool], n
     out.count(&format!("outcome:{kind}"));
     out.count(&format!("expect:{expect:?}"));
     out.count(&format!("disabled-devices:{}", mask.iter().filter(|e| !**e).count()));
-    out.count(&format!("wrap:{}", wrap_str(wrap)));
-    out.count(&format!("depth:{}", node.depth()));
-    let shape = node.shape();
-    let nontrivial = node.depth() > 0 && (kind != "ok" || mask.iter().any(|e| *e));
+    out.count(&format!("wrap:{}", pair_tm.as_ref().map(|t| format!("pair:{t}")).unwrap_or_else(|| wrap_str(wrap))));
+    out.count(if how.pair.is_some() { "context:tuple-of-two-gains" } else if how.stm { "context:gain-stm-element" } else { "context:gain-datagram" });
+    if how.pair.is_some() {
+        out.count(&format!("pair-expect:{:?}", exps));
+    }
+    out.count(if how.packp && par { "pack:parallel" } else { "pack:serial" });
+    let depth = nodes.iter().map(|n| n.depth()).max().unwrap_or(0);
+    out.count(&format!("depth:{depth}"));
+    if how.stm {
+        out.count(&format!("stm-len:{}", if k > 8 { "9+".to_string() } else { k.to_string() }));
+        let mut seen = BTreeSet::new();
+        let mut shared = false;
+        for n in nodes {
+            let mut cs = vec![];
+            n.caches(&mut cs);
+            let ids: BTreeSet<u32> = cs.iter().map(|(id, _)| *id).collect();
+            shared |= ids.iter().any(|id| seen.contains(id));
+            seen.extend(ids);
+        }
+        out.count(if shared { "stm-cache-clone-in-several-elements:yes" } else { "stm-cache-clone-in-several-elements:no" });
+        if let Some(j) = first_bad {
+            out.count(&format!("stm-first-failing-element:{}", if j == 0 { "0" } else if j + 1 == k { "last" } else { "middle" }));
+        }
+    }
+    let shape = if how.pair.is_some() {
+        format!("pair[{}]", nodes[0].shape())
+    } else if how.stm {
+        format!("stm{}[{}]", k, nodes.first().map(|n| n.shape()).unwrap_or_else(|| "-".into()))
+    } else {
+        nodes[0].shape()
+    };
+    let nontrivial = (how.stm || how.pair.is_some() || depth > 0 || bad_mode(wrap)) && (kind != "ok" || any_enabled);
+    let wtok = pair_tm.clone().unwrap_or_else(|| wrap_str(wrap));
     out.case(if nontrivial {
-        Some(fnv64(format!("{shape}|{}|{kind}|{}|{:?}", mask_str(mask), wrap_str(wrap), env.dims).as_bytes()))
+        Some(fnv64(format!("{shape}|{}|{kind}|{wtok}|{:?}", mask_str(mask), env.dims).as_bytes()))
     } else {
         None
     });
     // ---- oracle: the property on the implementation
     let keybase = format!("{shape}:mask={}:{tag}", mask_str(mask));
+    let shown = nodes.iter().map(|n| n.show()).collect::<Vec<_>>().join(";");
     match (&res, expect) {
         (Err(p), _) => out.violation(
             format!("wrappers:panic:{keybase}"),
-            format!("panic ({p}) instead of drives or an error, sending {} with enable mask {}", node.show(), mask_str(mask)),
+            format!("panic ({p}) instead of drives or an error, sending {shown} with enable mask {}", mask_str(mask)),
             env.replay.clone(),
         ),
-        (Ok(Some(Ok(()))), Expect::OkDen) => {
+        (Ok(Some(Ok(()))), Expect::OkDen) if !bad_mode(wrap) => {
             'outer: for (i, cpu) in env.cpus.iter().enumerate() {
                 if !mask[i] {
                     continue;
                 }
-                let ds = cpu.fpga().drives_at(target, 0);
-                for t in 0..env.dims[i] {
-                    let want = den(node, i, t);
-                    if ds[t] != want {
-                        out.violation(
-                            format!("wrappers:drives:{keybase}"),
-                            format!(
-                                "device {i} transducer {t} holds {:?} but the gain selected for it computes {:?} (tree {}, mask {})",
-                                ds[t], want, node.show(), mask_str(mask)
-                            ),
-                            env.replay.clone(),
-                        );
-                        break 'outer;
+                if how.stm && (cpu.fpga().stm_cycle(target) != k || !cpu.fpga().is_stm_gain_mode(target)) {
+                    out.violation(
+                        format!("wrappers:stm-cycle:{keybase}"),
+                        format!(
+                            "device {i} holds {} gain patterns (gain mode: {}) after a GainSTM of {k} gains ({shown}, mask {})",
+                            cpu.fpga().stm_cycle(target), cpu.fpga().is_stm_gain_mode(target), mask_str(mask)
+                        ),
+                        env.replay.clone(),
+                    );
+                    break 'outer;
+                }
+                for (j, node) in nodes.iter().enumerate() {
+                    let ds = if how.pair.is_some() {
+                        cpu.fpga().drives_at(if j == 0 { Segment::S0 } else { Segment::S1 }, 0)
+                    } else {
+                        cpu.fpga().drives_at(target, j)
+                    };
+                    for t in 0..env.dims[i] {
+                        let want = den(node, i, t);
+                        if ds[t] != want {
+                            out.violation(
+                                format!("wrappers:drives:{keybase}"),
+                                format!(
+                                    "device {i} transducer {t}{} holds {:?} but the gain selected for it computes {:?} (tree {}, mask {})",
+                                    if how.stm { format!(" pattern {j}") } else if how.pair.is_some() { format!(" segment {j}") } else { String::new() },
+                                    ds[t], want, node.show(), mask_str(mask)
+                                ),
+                                env.replay.clone(),
+                            );
+                            break 'outer;
+                        }
                     }
                 }
             }
         }
         (Ok(Some(Err(e))), Expect::OkDen) => out.violation(
             format!("wrappers:spurious-error:{keybase}"),
-            format!("`{e}` for a well-keyed tree {} with mask {}", node.show(), mask_str(mask)),
+            format!("`{e}` for well-keyed {shown} with mask {}", mask_str(mask)),
             env.replay.clone(),
         ),
-        (Ok(Some(Ok(()))), Expect::MustErr) => out.violation(
+        (Ok(Some(Ok(()) | Err(AUTDDriverError::InvalidTransitionMode))), Expect::MustErr) => out.violation(
             format!("wrappers:accepted-mismatch:{keybase}"),
-            format!("Ok for mismatched keys / failing inner gain / cache of another geometry: {} mask {}", node.show(), mask_str(mask)),
+            format!("Ok for mismatched keys / failing inner gain / cache of another geometry: {shown} mask {}", mask_str(mask)),
             env.replay.clone(),
         ),
+        (Ok(Some(r)), Expect::ModeErr) => match r {
+            Err(AUTDDriverError::InvalidTransitionMode) => {}
+            Ok(()) => out.violation(
+                format!("wrappers:mode-swallowed:{keybase}:{}", wrap_str(wrap)),
+                format!("Ok for a gain inside WithSegment with transition mode `{}` (only Immediate is valid): {shown} mask {}", wrap_str(wrap), mask_str(mask)),
+                env.replay.clone(),
+            ),
+            Err(e) => out.violation(
+                format!("wrappers:spurious-error:{keybase}"),
+                format!("`{e}` instead of InvalidTransitionMode for well-keyed {shown} with mask {}", mask_str(mask)),
+                env.replay.clone(),
+            ),
+        },
+        (Ok(Some(r)), Expect::SizeErr) => {
+            if !matches!(r, Err(AUTDDriverError::GainSTMSizeOutOfRange(n)) if *n == k) {
+                out.violation(
+                    format!("wrappers:stm-size:{keybase}"),
+                    format!("{r:?} for a GainSTM of {k} gains"),
+                    env.replay.clone(),
+                );
+            }
+        }
         _ => {}
+    }
+    // every leaf that records its arguments was handed the `parallel` flag of this send, whatever
+    // wrappers / datagram it sits in (also when the send ends in an error)
+    {
+        let want = format!("@{}:", par as u8);
+        let log = env.cx.log.lock().unwrap();
+        if let Some(l) = log.iter().find(|l| !l.contains(&want)) {
+            out.violation(
+                format!("wrappers:parallel-not-forwarded:{keybase}"),
+                format!("a leaf gain of {shown} was initialised as `{l}` (H<salt>@<parallel>:<filter>) in a send with parallel={}", par as u8),
+                env.replay.clone(),
+            );
+        }
     }
     // the key named by "Unknown group key" must be one a key map uses and a gain map lacks
     if let Ok(Some(Err(e))) = &res {
         let msg = e.to_string();
-        if let Some(k) = msg.strip_prefix("Unknown group key: ").and_then(|s| s.trim().parse::<u8>().ok()) {
+        if let Some(kk) = msg.strip_prefix("Unknown group key: ").and_then(|s| s.trim().parse::<u8>().ok()) {
             fn unknown_somewhere(n: &Node, mask: &[bool], k: u8) -> bool {
                 match n {
                     Node::B(x) | Node::C(_, x) => unknown_somewhere(x, mask, k),
@@ -684,39 +963,41 @@ fn send_sk(out: &mut Out, env: &mut Env, wrap: Wrap, par: bool, mask: &[bool], n
                     _ => false,
                 }
             }
-            if !unknown_somewhere(node, mask, k) {
+            if !nodes.iter().any(|n| unknown_somewhere(n, mask, kk)) {
                 out.violation(
                     format!("wrappers:wrong-unknown-key:{keybase}"),
-                    format!("reports unknown key {k}, which no group of {} lacks", node.show()),
+                    format!("reports unknown key {kk}, which no group of {shown} lacks"),
                     env.replay.clone(),
                 );
             }
         }
     }
     // ---- bookkeeping
-    let ok = matches!(res, Ok(Some(Ok(()))));
-    let mut sks = BTreeMap::new();
-    cache_sks(node, sk, &mut sks);
-    for (id, inner) in caches {
-        let sk = sks[&id].clone();
-        let ci = env.info.entry(id).or_insert(CacheInfo {
-            first_mask: None,
-            poisoned: false,
-            inner,
-            root_sig: root_sig.clone(),
-            sk,
-        });
-        if ci.first_mask.is_none() {
-            if ok {
-                ci.first_mask = Some(mask.to_vec());
-                ci.root_sig = root_sig.clone();
-            } else {
-                ci.poisoned = true;
-            }
-        }
-    }
     if res.is_err() {
         env.dead = true;
+    } else if size_bad {
+        // refused before any `init_full`: the caches are untouched
+    } else if init_ok {
+        for n in nodes {
+            book(&mut env.info, n, sk, mask, true);
+        }
+    } else if how.pair.is_some() {
+        // both members were initialised whatever the other one did
+        let consistent = exps.iter().any(|e| *e != Expect::OkDen);
+        for (n, e) in nodes.iter().zip(&exps) {
+            book(&mut env.info, n, sk, mask, consistent && *e == Expect::OkDen);
+        }
+    } else {
+        // an `Err` from some `init_full`: the elements before the first one that is not expected to
+        // succeed went through; that one and (if its outcome was open) the later ones are unknown
+        let j = first_bad.unwrap_or(0);
+        for n in &nodes[..j] {
+            book(&mut env.info, n, sk, mask, true);
+        }
+        let upto = if first_bad.is_some() && exps[j] == Expect::MustErr { j + 1 } else { k };
+        for n in &nodes[j..upto] {
+            book(&mut env.info, n, sk, mask, false);
+        }
     }
     answer
 }
@@ -797,6 +1078,9 @@ struct Filler<'a> {
     /// reuse caches of the history (same skeleton, valid for this mask, filter independent)
     reuse: bool,
     used_ids: BTreeSet<u32>,
+    /// caches of the earlier elements of the `GainSTM` being generated (id, skeleton, inner tree):
+    /// candidates for a clone in this element
+    extra: Vec<(u32, Sk, Node)>,
 }
 
 fn gen_km(rng: &mut Rng, dims: &[usize]) -> Km {
@@ -935,6 +1219,27 @@ impl Filler<'_> {
             Sk::E => Node::E(self.salt(env)),
             Sk::D => self.dynamic(env, 2),
             Sk::C(x) => {
+                if !self.extra.is_empty() && self.rng.chance(1, 2) {
+                    let me = Sk::C(x.clone());
+                    let cands: Vec<usize> = (0..self.extra.len())
+                        .filter(|&i| {
+                            let (id, sk, inner) = &self.extra[i];
+                            *sk == me && inner.filter_free() && !self.used_ids.contains(id) && well_keyed(inner, &self.mask)
+                        })
+                        .collect();
+                    if !cands.is_empty() {
+                        let (id, _, inner) = self.extra[*self.rng.pick(&cands)].clone();
+                        let mut inner_ids = vec![];
+                        inner.caches(&mut inner_ids);
+                        if inner_ids.iter().all(|(i, _)| !self.used_ids.contains(i)) {
+                            self.used_ids.insert(id);
+                            inner_ids.iter().for_each(|(i, _)| {
+                                self.used_ids.insert(*i);
+                            });
+                            return Node::C(id, Box::new(inner));
+                        }
+                    }
+                }
                 if self.reuse && self.rng.chance(1, 2) {
                     let me = Sk::C(x.clone());
                     let cands: Vec<u32> = env
@@ -996,6 +1301,66 @@ fn pick_wrap(rng: &mut Rng) -> Wrap {
         _ => None,
     }
 }
+
+/// the modes a gain cannot be sent with (the payloads of `GPIO` / `SysTime` never reach a frame)
+fn bad_modes() -> [TransitionMode; 4] {
+    [TransitionMode::Ext, TransitionMode::SyncIdx, TransitionMode::GPIO(GPIOIn::I1), TransitionMode::SysTime(DcSysTime::ZERO)]
+}
+
+/// `pick_wrap`, and one time in `one_in` a `WithSegment` with a mode other than `Immediate`
+fn pick_wrap_x(rng: &mut Rng, one_in: u64) -> Wrap {
+    if rng.chance(1, one_in) {
+        let seg = if rng.chance(1, 2) { Segment::S0 } else { Segment::S1 };
+        Some((seg, Some(*rng.pick(&bad_modes()))))
+    } else {
+        pick_wrap(rng)
+    }
+}
+
+/// the elements of a `GainSTM`: `k` trees of skeleton `sk`, each a fresh filling (which may hold
+/// clones of the caches of earlier elements and, with `reuse`, of the history) or an earlier element
+/// once more; `plant` goes into one element.  Returns the trees and whether the plant found a site.
+#[allow(clippy::too_many_arguments)]
+fn gen_stm(rng: &mut Rng, env: &mut Env, sk: &Sk, mask: &[bool], dims: &[usize], k: usize, plant: Option<Plant>, reuse: bool) -> (Vec<Node>, bool) {
+    let plant_at = if k > 0 { rng.below(k as u64) as usize } else { 0 };
+    let mut elems: Vec<Node> = vec![];
+    let mut extra: Vec<(u32, Sk, Node)> = vec![];
+    let mut planted = false;
+    for j in 0..k {
+        let here = plant.filter(|_| j == plant_at);
+        if j > 0 && here.is_none() && rng.chance(1, 3) {
+            let e = rng.pick(&elems).clone();
+            elems.push(e);
+            continue;
+        }
+        let nth = rng.below(3) as u32;
+        let mut f = Filler {
+            rng: &mut *rng,
+            mask: mask.to_vec(),
+            dims: dims.to_vec(),
+            plant: here.map(|p| (p, nth)),
+            planted: false,
+            reuse: reuse && here.is_none(),
+            used_ids: BTreeSet::new(),
+            extra: if here.is_none() { extra.clone() } else { vec![] },
+        };
+        let t = f.fill(env, sk);
+        planted |= f.planted;
+        let mut sks = BTreeMap::new();
+        cache_sks(&t, sk, &mut sks);
+        let mut cs = vec![];
+        t.caches(&mut cs);
+        for (id, inner) in cs {
+            if !extra.iter().any(|(i, _, _)| *i == id) {
+                extra.push((id, sks[&id].clone(), inner));
+            }
+        }
+        elems.push(t);
+    }
+    (elems, planted)
+}
+
+const STM: How = How { stm: true, packp: false, pair: None };
 
 fn parse_km(rows: &[&str]) -> Arc<Km> {
     Arc::new(
@@ -1154,6 +1519,124 @@ fn corpus(out: &mut Out) {
         let mut env = start(out, &[249, 249]);
         send(out, &mut env, None, false, &m("01"), &t, "autd3-size");
     }
+    corpus_contexts(out);
+}
+
+/// the trees in other contexts than the root of a valid gain datagram (coverage review C14, 1 and 3)
+fn corpus_contexts(out: &mut Out) {
+    use Node::*;
+    let s1i = Some((Segment::S1, Some(TransitionMode::Immediate)));
+    let stm = |out: &mut Out, env: &mut Env, wrap: Wrap, par: bool, mask: &str, ts: &[Node], tag: &str| {
+        let sk = ts.first().map(Sk::of).unwrap_or(Sk::L);
+        send_any(out, env, STM, wrap, par, &m(mask), ts, &sk, tag)
+    };
+    // clones of one cache as two / three elements of a GainSTM, then the cache on its own, then
+    // under another mask (it was filled by the STM)
+    for mask in ["11", "01", "10", "00"] {
+        let mut env = start(out, &[3, 2]);
+        let t = cache(1, L(4));
+        stm(out, &mut env, None, false, mask, &[t.clone(), t.clone()], "stm-cache-twice");
+        stm(out, &mut env, s1i, true, mask, &[t.clone(), t.clone(), t.clone()], "stm-cache-thrice-again");
+        send(out, &mut env, None, false, &m(mask), &t, "stm-cache-then-gain");
+        if mask != "11" {
+            stm(out, &mut env, None, false, "11", &[t.clone(), t.clone()], "stm-cache-other-mask");
+        }
+    }
+    // different trees per element: the order of the patterns is the order of the gains
+    {
+        let mut env = start(out, &[3, 3]);
+        let e = |s: u32| grp(&["ab.", "bba"], vec![('a', H(s)), ('b', H(s + 1))]);
+        stm(out, &mut env, None, false, "11", &[e(1), e(3), e(5)], "stm-order");
+        stm(out, &mut env, Some((Segment::S1, None)), true, "11", &[e(5), e(3), e(1), e(3)], "stm-order");
+        stm(out, &mut env, Some((Segment::S0, Some(TransitionMode::Immediate))), true, "01", &[H(7), H(8)], "stm-holo-parallel");
+    }
+    // F13 in the STM context: Group{Cache} elements with a device disabled, one cache in two elements
+    for mask in ["01", "10", "11"] {
+        let mut env = start(out, &[3, 3]);
+        let a = grp(&["aaa", "aaa"], vec![('a', cache(1, L(1)))]);
+        let b = grp(&["ab.", "b.a"], vec![('a', cache(1, L(1))), ('b', cache(2, L(2)))]);
+        stm(out, &mut env, None, false, mask, &[a.clone(), b.clone()], "stm-F13-group-cache");
+        stm(out, &mut env, s1i, false, mask, &[b.clone(), a.clone(), b.clone()], "stm-F13-group-cache-again");
+    }
+    // the first failure ends the initialisation: earlier elements have filled their caches, later
+    // ones are untouched
+    {
+        let mut env = start(out, &[2, 2]);
+        let a = grp(&["aa", "aa"], vec![('a', cache(1, L(1)))]);
+        let b = grp(&["ab", "aa"], vec![('a', cache(2, L(2)))]);
+        let c = grp(&["aa", "aa"], vec![('a', cache(3, L(3)))]);
+        stm(out, &mut env, None, false, "11", &[a.clone(), b.clone(), c.clone()], "stm-failing-middle");
+        // filled under 11: another mask is refused
+        send(out, &mut env, None, false, &m("01"), &a, "stm-failing-middle-first-was-filled");
+        // untouched: any mask will do
+        send(out, &mut env, None, false, &m("01"), &c, "stm-failing-middle-last-untouched");
+        let bad = grp(&["ab", "aa"], vec![('a', L(1))]);
+        let good = grp(&["ab", "aa"], vec![('a', L(1)), ('b', L(2))]);
+        stm(out, &mut env, None, false, "11", &[good.clone(), bad.clone()], "stm-unknown-key-last");
+        stm(out, &mut env, None, false, "01", &[good.clone(), good.clone()], "stm-key-on-disabled-device");
+    }
+    // sizes
+    {
+        let mut env = start(out, &[2]);
+        stm(out, &mut env, None, false, "1", &[], "stm-size");
+        stm(out, &mut env, None, false, "1", &[cache(1, L(1))], "stm-size");
+        // refused before any init_full: the cache is still fresh
+        send(out, &mut env, None, false, &m("1"), &cache(1, L(1)), "stm-size-cache-untouched");
+        let many: Vec<Node> = (0..1025).map(|i| L(i % 7)).collect();
+        stm(out, &mut env, s1i, false, "1", &many, "stm-size");
+        stm(out, &mut env, s1i, false, "1", &many[..70], "stm-two-pages");
+    }
+    // WithSegment must hand its transition mode through: everything but Immediate is refused by the
+    // gain operation — after init_full, so the cache is filled by the refused send
+    for (wi, mode) in bad_modes().into_iter().enumerate() {
+        let seg = if wi % 2 == 0 { Segment::S0 } else { Segment::S1 };
+        let mut env = start(out, &[2, 3]);
+        let t = grp(&["ab", "a.b"], vec![('a', cache(1, L(3))), ('b', cache(2, L(4)))]);
+        send(out, &mut env, Some((seg, Some(mode))), wi % 2 == 1, &m("11"), &t, "mode");
+        send(out, &mut env, Some((seg, Some(mode))), false, &m("00"), &L(1), "mode-nothing-enabled");
+        send(out, &mut env, Some((Segment::S1, None)), false, &m("11"), &t, "mode-then-valid");
+        send(out, &mut env, None, false, &m("01"), &cache(1, L(3)), "mode-cache-was-filled");
+        send(out, &mut env, Some((seg, Some(mode))), false, &m("01"), &grp(&["ab", "a.b"], vec![('a', L(3))]), "mode-and-unknown-key");
+        send_any(out, &mut env, How { stm: false, packp: true, pair: None }, Some((seg, Some(mode))), true, &m("11"), std::slice::from_ref(&t), &Sk::of(&t), "mode-parallel-pack");
+    }
+    // two gains as one tuple datagram (S0 and S1): clones of one cache in both members; the second
+    // member is initialised even when the first one fails
+    {
+        let pair = |out: &mut Out, env: &mut Env, a: bool, b: bool, par: bool, mask: &str, t1: &Node, t2: &Node, tag: &str| {
+            send_any(out, env, How { stm: false, packp: false, pair: Some((a, b)) }, None, par, &m(mask), &[t1.clone(), t2.clone()], &Sk::of(t1), tag)
+        };
+        for mask in ["11", "01", "10"] {
+            let mut env = start(out, &[3, 3]);
+            let a = grp(&["aaa", "aaa"], vec![('a', cache(1, L(1)))]);
+            let b = grp(&["ab.", "b.a"], vec![('a', cache(1, L(1))), ('b', cache(2, L(2)))]);
+            pair(out, &mut env, true, false, false, mask, &a, &b, "pair-F13-group-cache");
+            pair(out, &mut env, false, true, true, mask, &b, &a, "pair-F13-group-cache-swapped");
+        }
+        let mut env = start(out, &[2, 2]);
+        let bad = grp(&["ab", "aa"], vec![('a', cache(1, L(1)))]);
+        let good = grp(&["aa", "aa"], vec![('a', cache(2, L(2)))]);
+        pair(out, &mut env, true, true, false, "11", &bad, &good, "pair-first-fails");
+        // … so the cache of the second member is bound to mask 11 now
+        send(out, &mut env, None, false, &m("01"), &good, "pair-first-fails-second-was-initialised");
+        let (h1, h2) = (grp(&["ab", "ba"], vec![('a', H(1)), ('b', H(2))]), grp(&["a.", ".a"], vec![('a', H(3))]));
+        pair(out, &mut env, false, false, true, "11", &h1, &h2, "pair-holo");
+        pair(out, &mut env, true, true, true, "10", &h2, &h1, "pair-holo");
+        let mut env = start(out, &[249, 249]);
+        let rows: Vec<String> = (0..2).map(|d| (0..249).map(|t| if (t + d) % 3 == 0 { 'a' } else { 'b' }).collect()).collect();
+        let rows: Vec<&str> = rows.iter().map(|s| s.as_str()).collect();
+        let t = grp(&rows, vec![('a', cache(1, L(1))), ('b', cache(2, L(2)))]);
+        // two full-size gains do not fit one frame
+        pair(out, &mut env, true, false, false, "11", &t, &t, "pair-two-frames");
+    }
+    // packed in parallel, as Sender::send does with `parallel`
+    {
+        let mut env = start(out, &[3, 3, 3]);
+        let t = grp(&["abc", "bca", "cab"], vec![('a', H(1)), ('b', H(2)), ('c', H(3))]);
+        let pp = How { stm: false, packp: true, pair: None };
+        send_any(out, &mut env, pp, None, true, &m("111"), std::slice::from_ref(&t), &Sk::of(&t), "parallel-pack");
+        send_any(out, &mut env, pp, s1i, true, &m("101"), std::slice::from_ref(&t), &Sk::of(&t), "parallel-pack");
+        send_any(out, &mut env, How { stm: true, packp: true, pair: None }, None, true, &m("110"), &[t.clone(), t.clone()], &Sk::of(&t), "parallel-pack-stm");
+    }
 }
 
 pub fn run(args: &Args) {
@@ -1166,13 +1649,14 @@ pub fn run(args: &Args) {
     // ---- every shape × every enable mask of 1…4 devices: send, send again, send under another
     //      segment wrapper, then the caches inside another tree
     let fillings = if thorough { 24 } else { 3 };
+    let stm_fillings = if thorough { 8 } else { 2 };
     for sk in catalogue() {
         for n in 1..=4usize {
             for mask in all_masks(n) {
                 for rep in 0..fillings {
                     let dims = pick_dims(&mut rng, n, rep == 3);
                     let mut env = start(&mut out, &dims);
-                    let mut f = Filler { rng: &mut rng, mask: mask.clone(), dims: dims.clone(), plant: None, planted: false, reuse: false, used_ids: BTreeSet::new() };
+                    let mut f = Filler { rng: &mut rng, mask: mask.clone(), dims: dims.clone(), plant: None, planted: false, reuse: false, used_ids: BTreeSet::new(), extra: vec![] };
                     let t = f.fill(&mut env, &sk);
                     let par = f.rng.chance(1, 2);
                     out.count(&format!("shape:{}", sk.name()));
@@ -1180,15 +1664,40 @@ pub fn run(args: &Args) {
                     if env.dead {
                         continue;
                     }
-                    send_sk(&mut out, &mut env, pick_wrap(&mut rng), par, &mask, &t, &sk, "sweep-again");
+                    send_sk(&mut out, &mut env, pick_wrap_x(&mut rng, 6), par, &mask, &t, &sk, "sweep-again");
                     if env.dead {
                         continue;
                     }
                     // the caches of this history inside a fresh tree of a random shape
                     let sk2 = rng.pick(&catalogue()).clone();
-                    let mut f = Filler { rng: &mut rng, mask: mask.clone(), dims: dims.clone(), plant: None, planted: false, reuse: true, used_ids: BTreeSet::new() };
+                    let mut f = Filler { rng: &mut rng, mask: mask.clone(), dims: dims.clone(), plant: None, planted: false, reuse: true, used_ids: BTreeSet::new(), extra: vec![] };
                     let t2 = f.fill(&mut env, &sk2);
-                    send_sk(&mut out, &mut env, pick_wrap(&mut rng), par, &mask, &t2, &sk2, "sweep-reuse");
+                    send_sk(&mut out, &mut env, pick_wrap_x(&mut rng, 6), par, &mask, &t2, &sk2, "sweep-reuse");
+                    // ---- the same shape and mask as the elements of a GainSTM (fresh history): send,
+                    //      send again inside a segment wrapper, then the last element as a plain gain
+                    if rep >= stm_fillings {
+                        continue;
+                    }
+                    let mut env = start(&mut out, &dims);
+                    let k = rng.range(2, if thorough { 5 } else { 3 }) as usize;
+                    let (ts, _) = gen_stm(&mut rng, &mut env, &sk, &mask, &dims, k, None, false);
+                    let how = How { stm: true, packp: rng.chance(1, 4), pair: None };
+                    send_any(&mut out, &mut env, how, None, par, &mask, &ts, &sk, "sweep-stm");
+                    if env.dead {
+                        continue;
+                    }
+                    send_any(&mut out, &mut env, how, pick_wrap(&mut rng), par, &mask, &ts, &sk, "sweep-stm-again");
+                    if env.dead {
+                        continue;
+                    }
+                    let last = ts.last().unwrap().clone();
+                    send_sk(&mut out, &mut env, pick_wrap_x(&mut rng, 4), par, &mask, &last, &sk, "sweep-stm-then-gain");
+                    if env.dead {
+                        continue;
+                    }
+                    // the first and the last element as the two members of a tuple datagram
+                    let how = How { stm: false, packp: rng.chance(1, 4), pair: Some((rng.chance(1, 2), rng.chance(1, 2))) };
+                    send_any(&mut out, &mut env, how, None, par, &mask, &[ts[0].clone(), last], &sk, "sweep-pair");
                 }
             }
         }
@@ -1242,6 +1751,45 @@ pub fn run(args: &Args) {
                     continue;
                 }
             }
+            if rng.chance(1, 8) {
+                // two trees as the members of a tuple datagram
+                let (ts, planted) = gen_stm(&mut rng, &mut env, &sk, &mask, &dims, 2, plant, true);
+                let par = rng.chance(1, 2);
+                out.count(&format!(
+                    "mode:pair-{}",
+                    match (plant, planted) {
+                        (Some(p), true) => format!("{p:?}").to_lowercase(),
+                        (Some(_), false) => "clean(no-site)".into(),
+                        (None, _) => "clean".into(),
+                    }
+                ));
+                out.count(&format!("shape:{}", sk.name()));
+                let how = How { stm: false, packp: rng.chance(1, 4), pair: Some((rng.chance(1, 2), rng.chance(1, 2))) };
+                send_any(&mut out, &mut env, how, None, par, &mask, &ts, &sk, "random-pair");
+                continue;
+            }
+            if rng.chance(1, 4) {
+                // the trees as the elements of a GainSTM (rarely of a refused size)
+                let k = match rng.below(16) {
+                    0 => rng.below(2) as usize,
+                    1 if thorough => rng.range(5, 9) as usize,
+                    _ => rng.range(2, 4) as usize,
+                };
+                let (ts, planted) = gen_stm(&mut rng, &mut env, &sk, &mask, &dims, k, plant, true);
+                let par = rng.chance(1, 2);
+                out.count(&format!(
+                    "mode:stm-{}",
+                    match (plant, planted) {
+                        (Some(p), true) => format!("{p:?}").to_lowercase(),
+                        (Some(_), false) => "clean(no-site)".into(),
+                        (None, _) => "clean".into(),
+                    }
+                ));
+                out.count(&format!("shape:{}", sk.name()));
+                let how = How { stm: true, packp: rng.chance(1, 4), pair: None };
+                send_any(&mut out, &mut env, how, pick_wrap(&mut rng), par, &mask, &ts, &sk, "random-stm");
+                continue;
+            }
             let mut f = Filler {
                 rng: &mut rng,
                 mask: mask.clone(),
@@ -1250,6 +1798,7 @@ pub fn run(args: &Args) {
                 planted: false,
                 reuse: plant.is_none(),
                 used_ids: BTreeSet::new(),
+                extra: vec![],
             };
             if let Some((p, _)) = f.plant {
                 f.plant = Some((p, f.rng.below(3) as u32));
@@ -1266,14 +1815,17 @@ pub fn run(args: &Args) {
                 }
             ));
             out.count(&format!("shape:{}", sk.name()));
-            send_sk(&mut out, &mut env, pick_wrap(&mut rng), par, &mask, &t, &sk, "random");
+            let how = How { stm: false, packp: rng.chance(1, 4), pair: None };
+            send_any(&mut out, &mut env, how, pick_wrap_x(&mut rng, 8), par, &mask, std::slice::from_ref(&t), &sk, "random");
         }
     }
     out.sample("geo 3 3 / send - 0 01 G[aaa|aaa]{a:C1(L1)} / (again)".into());
     out.sample("geo 2 2 2 2 / send - 0 1011 C9(G[ab|ab|..|b.]{a:C1(L7),b:C2(L8)}) x3 / send - 0 1011 G[cc|cc|cc|cc]{c:C1(L7)}".into());
     out.sample("geo 3 1 / send 1 0 01 B(G[a.b|b]{a:B(B(H3)),b:B(G[xyx|x]{x:B(L1),y:B(H2)})})".into());
+    out.sample("geo 3 3 / stm - 0 01 G[aaa|aaa]{a:C1(L1)};G[ab.|b.a]{a:C1(L1),b:C2(L2)} / stm 1i 0 01 (b;a;b)".into());
+    out.sample("geo 2 3 / send 0e 0 11 G[ab|a.b]{a:C1(L3),b:C2(L4)} -> err invalid-transition-mode / send - 0 01 C1(L3) -> err cache-geometry".into());
     out.finish(
         "wrappers",
-        "a case is one send of a gain datagram; non-trivial = the tree has at least one wrapper and (some device is enabled or the outcome is an error); distinct by (tree shape without salts/ids/key maps, enable mask, outcome kind, segment wrapper, device sizes)",
+        "a case is one send of a gain datagram, of a GainSTM whose elements are wrapper trees, or of a tuple of two gains; non-trivial = (the tree has at least one wrapper, or it is a GainSTM / tuple, or the segment wrapper carries a mode other than Immediate) and (some device is enabled or the outcome is an error); distinct by (context+length+tree shape without salts/ids/key maps, enable mask, outcome kind, segment wrapper incl. mode, device sizes). Modelled dimensions: context (send/stm/pair op), transition mode (wrap token), STM length and cache sharing between elements; invisible to the model (same answers required): pack:parallel (`+p`, OperationHandler::pack with parallel as Sender::send does). Oracle-only: stm_cycle / gain mode of the segment after a GainSTM.",
     );
 }
